@@ -49,7 +49,10 @@ Points == <<
   [dec |-> "4294967296", int |-> TRUE, f32 |-> FALSE, itxt |-> <<52, 50, 57, 52, 57, 54, 55, 50, 57, 54>>, ftxt |-> <<52, 46, 50, 57, 52, 57, 54, 55, 50, 57, 54, 101, 43, 48, 57>>],
   [dec |-> "9007199254740990", int |-> TRUE, f32 |-> FALSE, itxt |-> <<57, 48, 48, 55, 49, 57, 57, 50, 53, 52, 55, 52, 48, 57, 57, 48>>, ftxt |-> <<57, 46, 48, 48, 55, 49, 57, 57, 50, 53, 52, 55, 52, 48, 57, 57, 101, 43, 49, 53>>],
   [dec |-> "9007199254740991", int |-> TRUE, f32 |-> FALSE, itxt |-> <<57, 48, 48, 55, 49, 57, 57, 50, 53, 52, 55, 52, 48, 57, 57, 49>>, ftxt |-> <<57, 46, 48, 48, 55, 49, 57, 57, 50, 53, 52, 55, 52, 48, 57, 57, 49, 101, 43, 49, 53>>],
-  [dec |-> "9007199254740992", int |-> TRUE, f32 |-> FALSE, itxt |-> <<57, 48, 48, 55, 49, 57, 57, 50, 53, 52, 55, 52, 48, 57, 57, 50>>, ftxt |-> <<57, 46, 48, 48, 55, 49, 57, 57, 50, 53, 52, 55, 52, 48, 57, 57, 50, 101, 43, 49, 53>>] >>
+  [dec |-> "9007199254740992", int |-> TRUE, f32 |-> FALSE, itxt |-> <<57, 48, 48, 55, 49, 57, 57, 50, 53, 52, 55, 52, 48, 57, 57, 50>>, ftxt |-> <<57, 46, 48, 48, 55, 49, 57, 57, 50, 53, 52, 55, 52, 48, 57, 57, 50, 101, 43, 49, 53>>],
+  [dec |-> "9223372036854775808", int |-> TRUE, f32 |-> FALSE, itxt |-> <<57, 50, 50, 51, 51, 55, 50, 48, 51, 54, 56, 53, 52, 55, 55, 53, 56, 48, 56>>, ftxt |-> <<57, 46, 50, 50, 51, 51, 55, 50, 48, 51, 54, 56, 53, 52, 55, 55, 54, 101, 43, 49, 56>>],
+  [dec |-> "18446744073709549568", int |-> TRUE, f32 |-> FALSE, itxt |-> <<49, 56, 52, 52, 54, 55, 52, 52, 48, 55, 51, 55, 48, 57, 53, 52, 57, 53, 54, 56>>, ftxt |-> <<49, 46, 56, 52, 52, 54, 55, 52, 52, 48, 55, 51, 55, 48, 57, 53, 53, 101, 43, 49, 57>>],
+  [dec |-> "340282346638528859811704183484516925440", int |-> FALSE, f32 |-> FALSE, itxt |-> <<51, 52, 48, 50, 56, 50, 51, 52, 54, 54, 51, 56, 53, 50, 56, 56, 53, 57, 56, 49, 49, 55, 48, 52, 49, 56, 51, 52, 56, 52, 53, 49, 54, 57, 50, 53, 52, 52, 48>>, ftxt |-> <<51, 46, 52, 48, 50, 56, 50, 51, 52, 54, 54, 51, 56, 53, 50, 56, 56, 54, 101, 43, 51, 56>>] >>
 
 NP == Len(Points)
 Idx(d) == CHOOSE i \in 1..NP : Points[i].dec = d
@@ -67,6 +70,7 @@ Hi(k) == CASE k = "int8"   -> Idx("127")
            [] k = "uint8"  -> Idx("255")
            [] k = "uint16" -> Idx("65535")
            [] k = "uint32" -> Idx("4294967295")
+           [] k \in {"int", "int64"} -> Idx("9007199254740992")   \* (the points above it are 2^63 and beyond)
            [] OTHER -> NP
 Kinds == IntKinds \cup {"float32", "float64"}
 
